@@ -123,6 +123,8 @@ def run_shard(spec, rep):
             _tamper_returned(rep, case, mix, rng, Composition, CompositionType)
         except InvBroken as e:
             rep.violation("class-invariant 0<=p<=1", case, {"error": str(e)})
+        except Exception as e:  # valid fractions (0 and 1 included) must be accepted and converted
+            rep.violation("conversion raised on a valid fraction", case, {"error": repr(e)})
         # constructor rejection
         for bad in (float("nan"), float("inf"), float("-inf"), -1e-300, 1 + EPS, -rng.random() - 1e-9, 1 + rng.random() + 1e-9):
             for typ in (CompositionType.weight, CompositionType.molar):
